@@ -12,7 +12,9 @@ LEVEL = "exploration"
 RULE = ("Each case = one whole simulated Pynguin run with assertion generation (SIMPLE or MUTATION_ANALYSIS, with and "
         "without assertion minimisation and post-processing) on a corpus module. Operation level: every call of "
         "TestCase.remove_unused_variables is wrapped - assertions attached before the call must still be attached "
-        "after it. End to end: the assertions attached to each test case immediately before _export_chromosome are "
+        "after it; generator._minimize as a whole is bracketed - every statement that carried a regression "
+        "assertion before it must, in each test case that survives it (same TestCase object), still exist (modulo "
+        "`x = e` -> `e`) with all those assertions. End to end: the assertions attached to each test case immediately before _export_chromosome are "
         "rendered with the exporter's own assertion_to_cst and each rendered line must occur in the corresponding "
         "test_<n> function of the written file. Non-trivial = >= 3 assertions were attached to statements whose "
         "variable is not read by any later statement (the dropping path); distinct = distinct run digest.")
@@ -54,6 +56,20 @@ def gen_case(run_seed: int, tier: str) -> dict:
     return case
 
 
+_ASSIGN = re.compile(r"^\s*\w+\s*=\s*(?!=)")
+
+
+def _rhs(code: str) -> str:
+    """Statement text modulo its binding (`x = e` and `e` compare equal)."""
+    return _ASSIGN.sub("", code.strip(), count=1)
+
+
+def _codes(t) -> list[str]:
+    import libcst as cst
+
+    return [cst.Module(body=[s.node]).code.strip() for s in t.statements()]
+
+
 def _render(assertion) -> str | None:
     import libcst as cst
 
@@ -71,6 +87,7 @@ class AssertionMonitor(Monitor):
         self.total = 0
         self.on_unused = 0
         self.ruv_calls = 0
+        self.min_matched = self.min_unmatched = self.min_asserted_statements = 0
 
     def on_setup(self, run):
         import pynguin.testcase.testcase as tc
@@ -90,6 +107,49 @@ class AssertionMonitor(Monitor):
                             f"{lost[0][0]}: {lost[0][2]!r}\n{self_tc.to_code()}")
 
         run.patch(tc.TestCase, "remove_unused_variables", ruv)
+
+    # -- minimisation phase (generator._minimize: exception truncation, unused-variable removal, iterative /
+    #    combined statement minimisation, suite minimisation, empty-test removal) -------------------------------
+    def before_minimize(self, run, suite):
+        self.min_before = []
+        for chrom in suite.test_case_chromosomes:
+            t = chrom.test_case
+            snap = []
+            for s, code in zip(t.statements(), _codes(t)):
+                refs = [r for r in (_render(a) for a in s.assertions if hasattr(a, "source")) if r]
+                if refs:
+                    snap.append((code, refs))
+            # the TestCase object is edited in place by every visitor; holding it keeps its id unique
+            self.min_before.append((t, snap))
+
+    def after_minimize(self, run, suite):
+        alive = {id(c.test_case): c.test_case for c in suite.test_case_chromosomes}
+        for t, snap in getattr(self, "min_before", []):
+            now = alive.get(id(t))
+            if now is None:
+                # test case removed as a whole (suite minimisation, empty-test removal) or the unminimised suite
+                # was restored as clones: nothing to compare statement-wise
+                self.min_unmatched += 1
+                continue
+            self.min_matched += 1
+            after = [(_rhs(code), {r for r in (_render(a) for a in s.assertions) if r})
+                     for s, code in zip(now.statements(), _codes(now))]
+            for code, refs in snap:
+                self.min_asserted_statements += 1
+                same = [asserts for rhs, asserts in after if rhs == _rhs(code)]
+                if not same:
+                    run.violate("minimize:asserted-statement-removed",
+                                f"statement `{code}` carried {len(refs)} regression assertion(s) (e.g. {refs[0]!r}) "
+                                f"before generator._minimize and is gone afterwards; surviving test case:\n"
+                                f"{now.to_code()}")
+                    return
+                # existential over equal statements: sound when a test case repeats a statement
+                if not any(all(r in asserts for r in refs) for asserts in same):
+                    missing = [r for r in refs if not any(r in asserts for asserts in same)] or refs
+                    run.violate("minimize:assertion-dropped",
+                                f"statement `{code}` lost assertion {missing[0]!r} during generator._minimize; "
+                                f"surviving test case:\n{now.to_code()}")
+                    return
 
     def before_export(self, run, suite):
         self.expected = []
@@ -140,7 +200,10 @@ def run_case(case: dict) -> dict:
     run, res = run_pipeline(case, [mon])
     res["nontrivial"] = mon.on_unused >= 3
     res["probes"].update(assertions_before_export=mon.total, assertions_on_otherwise_unused_variables=mon.on_unused,
-                         remove_unused_variables_calls=mon.ruv_calls)
+                         remove_unused_variables_calls=mon.ruv_calls,
+                         minimize_test_cases_compared=mon.min_matched,
+                         minimize_test_cases_removed_or_restored=mon.min_unmatched,
+                         minimize_asserted_statements_checked=mon.min_asserted_statements)
     if case["run_seed"] % 11 == 0:
         res["sample"] = {"module": case["module"], "algorithm": case["algorithm"], "knobs": case["knobs"],
                          "assertions": mon.total, "on_unused": mon.on_unused}
